@@ -39,16 +39,19 @@ var (
 type verifKLMPut struct {
 	key Key
 	loc Location
+	rot int // rotations of the block list that had happened when the entry was written
 }
 
 type verifKLMGet struct {
 	key  Key
 	kind int // 0 found, 1 not found, 2 error
 	loc  Location
+	rot  int // rotations that had happened when the answer was given
 }
 
 type verifKLM struct {
 	lock    *sync.RWMutex // when set, lock discipline is checked (engine only)
+	world   *verifLBM     // when set, answers and writes are stamped with its rotation count
 	gets    int
 	puts    []verifKLMPut
 	lookups []Key
@@ -77,6 +80,13 @@ func verifRequireLock(lock *sync.RWMutex, write bool, what string) {
 	}
 }
 
+func (m *verifKLM) rot() int {
+	if m.world == nil {
+		return 0
+	}
+	return m.world.rot
+}
+
 func (m *verifKLM) Get(key Key) (Location, error) {
 	verifRequireLock(m.lock, false, "KeyLocationMap.Get")
 	m.gets++
@@ -100,7 +110,7 @@ func (m *verifKLM) Get(key Key) (Location, error) {
 	}
 	switch kind {
 	case 0:
-		m.history = append(m.history, verifKLMGet{key: key, kind: 0, loc: loc})
+		m.history = append(m.history, verifKLMGet{key: key, kind: 0, loc: loc, rot: m.rot()})
 		return loc, nil
 	case 1:
 		m.history = append(m.history, verifKLMGet{key: key, kind: 1})
@@ -112,7 +122,7 @@ func (m *verifKLM) Get(key Key) (Location, error) {
 
 func (m *verifKLM) Put(key Key, loc Location) error {
 	verifRequireLock(m.lock, true, "KeyLocationMap.Put")
-	m.puts = append(m.puts, verifKLMPut{key: key, loc: loc})
+	m.puts = append(m.puts, verifKLMPut{key: key, loc: loc, rot: m.rot()})
 	if vnd.Bool() {
 		return verifErrIndex
 	}
@@ -164,6 +174,7 @@ type verifLBMPut struct {
 	loc      Location
 	finalOK  bool
 	finalRun int
+	finalRot int // rotations that had happened when the finalizer reported loc
 }
 
 type verifLBM struct {
@@ -177,6 +188,21 @@ type verifLBM struct {
 	// quiescent: needs-refresh is a function of the location's block (as in the real map)
 	quiescent bool
 	oldLimit  int
+	// rotates: an allocation may release the oldest block, which shifts every block index
+	// by one (Location.BlockIndex is relative to the oldest block still in the list)
+	rotates bool
+	rot     int
+	// objects: contents by digest for getters (default verifObjData)
+	objects  map[digest.Digest][]byte
+	getLocs  []Location // location every invoked getter had been obtained for
+	getCalls []digest.Digest
+}
+
+func (m *verifLBM) dataFor(d digest.Digest) []byte {
+	if data, ok := m.objects[d]; ok {
+		return data
+	}
+	return verifObjData
 }
 
 func (m *verifLBM) Get(loc Location) (LocationBlobGetter, bool) {
@@ -191,8 +217,10 @@ func (m *verifLBM) Get(loc Location) (LocationBlobGetter, bool) {
 		// documented contract: Put() and finalizers invalidate outstanding getters
 		vnd.Assert(m.epoch == epoch, "a LocationBlobGetter was invoked after LocationBlobMap.Put or a put finalizer invalidated it")
 		verifRequireLock(m.lock, false, "LocationBlobGetter")
-		src := &verifSource{data: verifObjData}
+		src := &verifSource{data: m.dataFor(d)}
 		m.sources = append(m.sources, src)
+		m.getLocs = append(m.getLocs, loc)
+		m.getCalls = append(m.getCalls, d)
 		switch m.kind {
 		case 0:
 			return buffer.NewCASBufferFromReader(d, src, buffer.BackendProvided(func(ok bool) { m.integrity = append(m.integrity, ok) }))
@@ -200,7 +228,7 @@ func (m *verifLBM) Get(loc Location) (LocationBlobGetter, bool) {
 			return buffer.NewValidatedBufferFromReaderAt(src, int64(len(src.data)))
 		}
 		src.closes++ // a byte slice buffer holds no reader
-		return buffer.NewValidatedBufferFromByteSlice(verifObjData)
+		return buffer.NewValidatedBufferFromByteSlice(src.data)
 	}, needsRefresh
 }
 
@@ -209,6 +237,9 @@ func (m *verifLBM) Put(sizeBytes int64) (LocationBlobPutWriter, error) {
 	m.epoch++
 	if vnd.Bool() {
 		return nil, verifErrAlloc
+	}
+	if m.rotates && vnd.Bool() {
+		m.rot++
 	}
 	p := &verifLBMPut{size: sizeBytes}
 	m.puts = append(m.puts, p)
@@ -233,6 +264,7 @@ func (m *verifLBM) Put(sizeBytes int64) (LocationBlobPutWriter, error) {
 				return Location{}, verifErrFinal
 			}
 			p.finalOK = true
+			p.finalRot = m.rot
 			p.loc = Location{BlockIndex: 3, OffsetBytes: int64(vnd.Int(0, 1000)), SizeBytes: sizeBytes}
 			return p.loc, nil
 		}
